@@ -11,6 +11,11 @@ tie:   exact correspondence (vm_compute) of every returned order list (orders 0.
        order arrays returned by Grid.moments, and of Cartesian moments on integer grids (Z arithmetic, exact in floats);
        radial / pure / pure-radial moments of the implementation and of the Coq model (run at bigQ with oracle tables)
        against direct quadrature with an independent closed-form solid-harmonic implementation, 1e-10.
+       Function values / densities are passed as float64, int64, int32, bool and float32 arrays (contiguous, non-contiguous
+       views, write-protected) on non-integer dyadic grids as well (exact bigQ correspondence, zero tolerance): the expected
+       value is the float64 quadrature of the given values.
+broken tie: when the translator fails closed (or the model no longer compiles against the translation) the Coq side is
+       skipped, every implementation-side oracle still runs, and ctx.broken_tie reports the first concrete failing input.
 """
 from __future__ import annotations
 
@@ -443,16 +448,59 @@ def coq_qrows(rows):
     return "[" + "; ".join(coq_qlist(r) for r in rows) + "]"
 
 
-def impl_moments(pts, w, L, cs, f, ty):
+FKINDS = ["float64", "int64", "int32", "bool", "float32"]   # dtypes of the function-value array
+LAYOUTS = ["plain", "strided", "readonly"]                   # contiguous / non-contiguous views / write-protected
+
+
+def lay(a, layout):
+    """The same values as a non-contiguous view or a read-only array."""
+    a = np.asarray(a)
+    if layout == "strided":
+        if a.ndim == 1:
+            big = np.zeros(2 * len(a), dtype=a.dtype)
+            big[::2] = a
+            return big[::2]
+        big = np.zeros((a.shape[0], a.shape[1] + 2), dtype=a.dtype)
+        big[:, 1:-1] = a
+        return big[:, 1:-1]
+    if layout == "readonly":
+        a = a.copy()
+        a.setflags(write=False)
+    return a
+
+
+def draw_f(rng, n, kind, mode):
+    """Function values of dtype `kind`; returns (array, [float64 value of every element]).
+    mode: 'int' integer-valued, 'dyadic' multiples of 1/8, 'float' arbitrary."""
+    if kind == "bool":
+        v = [rng.random() < 0.6 for _ in range(n)]
+        v[rng.randrange(n)] = True
+    elif kind in ("int64", "int32") or mode == "int":
+        v = [rng.choice([-4, -3, -2, -1, 1, 2, 3, 4, 5]) for _ in range(n)]
+    elif mode == "dyadic":
+        v = [(rng.randint(-12, 12) or 5) / 8.0 for _ in range(n)]
+    else:
+        v = [rng.uniform(-2, 2) for _ in range(n)]
+    a = np.array(v, dtype=kind)
+    return a, [float(x) for x in a]
+
+
+def impl_moments(pts, w, L, cs, f, ty, layout="plain"):
+    """f may be a list (-> float64) or a prepared ndarray of any dtype."""
     from grid.basegrid import Grid
     try:
-        g = Grid(np.array(pts, dtype=float), np.array(w, dtype=float))
-        m, o = g.moments(L, np.array(cs, dtype=float), np.array(f, dtype=float), ty, return_orders=True)
-        m2 = g.moments(L, np.array(cs, dtype=float), np.array(f, dtype=float), ty)  # default call path
+        fa = lay(f if isinstance(f, np.ndarray) else np.array(f, dtype=float), layout)
+        ca = lay(np.array(cs, dtype=float), layout)
+        g = Grid(lay(np.array(pts, dtype=float), layout), lay(np.array(w, dtype=float), layout))
+        f0 = fa.copy()
+        m, o = g.moments(L, ca, fa, ty, return_orders=True)
+        m2 = g.moments(L, ca, fa, ty)  # default call path
     except Exception as e:  # noqa: BLE001
         return ("crash", type(e).__name__)
     if np.asarray(m2).shape != np.asarray(m).shape or not np.array_equal(np.asarray(m2), np.asarray(m), equal_nan=True):
         return ("crash", "ResultDependsOnReturnOrders")
+    if not np.array_equal(fa, f0):
+        return ("crash", "FunctionValuesModified")
     return np.asarray(m), np.asarray(o)
 
 
@@ -473,23 +521,41 @@ def run(ctx: Ctx):
 
     importlib.reload(gu)
     importlib.reload(gb)
-    tr = gen(ctx)
     quick = ctx.quick
     rng = ctx.rng
+    gen_err = None
+    try:
+        gen(ctx)
+    except Exception as e:  # noqa: BLE001 - translator failed closed: the tie is broken, the oracles below still run
+        gen_err = e
 
     # ---------------------------------------------------------------- which dimension-1 variant applies
     LMAX_ORD = 8 if quick else 12
     r3, r0 = impl_orders(3, "cartesian", 1), impl_orders(0, "cartesian", 1)
     dim1_ok = (not is_crash(r3) and not is_crash(r0) and np.asarray(r3).tolist() == [[3]] and np.asarray(r0).tolist() == [[0]])
     variant = "fixed" if dim1_ok else "today"
-    ctx.copy_coq("C14")
-    ctx.copy_coq(f"C14/alt/C14_proofs_dim1_{variant}.v", f"C14/alt/C14_props_dim1_{variant}.v")
-    ctx.notes.append(f"dimension-1 variant: {variant}")
-    status = ctx.coq_build()
-    ctx.register_props(status)
-    model_ok = all(status.get(n, False) for n in ("C14_model_base.v", "C14_gen.v", "C14_model.v", "C14_model_exec.v"))
-    if not model_ok:
-        raise RuntimeError("the executable model does not compile: " + str({k: v for k, v in status.items() if not v}))
+    if gen_err is None:
+        ctx.copy_coq("C14")
+        ctx.copy_coq(f"C14/alt/C14_proofs_dim1_{variant}.v", f"C14/alt/C14_props_dim1_{variant}.v")
+        ctx.notes.append(f"dimension-1 variant: {variant}")
+        status = ctx.coq_build()
+        ctx.register_props(status)
+        notok = [n for n in ("C14_model_base.v", "C14_gen.v", "C14_model.v", "C14_model_exec.v") if not status.get(n, False)]
+        if notok:
+            gen_err = RuntimeError("the executable model no longer compiles against the translation: " + ", ".join(notok))
+    coq_ok = gen_err is None
+    cands: list = []   # failures of the property found on the implementation while the tie is broken
+
+    def emit(ob, key, observed, text, replay=None, found_input=True):
+        if coq_ok or not found_input:
+            ctx.fail(ob, key, observed, text, replay, found_input)
+        else:
+            cands.append((key, observed, text, replay))
+            if ctx.is_known(key, observed):
+                ctx.fail(ob, key, observed, text, replay)
+
+    def coq_bad(name, hdr, cs_, **kw):
+        return ctx.coq_bool_cases(name, hdr, cs_, **kw) if coq_ok else []
 
     # ---------------------------------------------------------------- 1. order lists: property (independent enumeration)
     #                                                                     and exact correspondence with the translation
@@ -520,13 +586,13 @@ def run(ctx: Ctx):
     for (ty, dim), (L, obs, exp) in sorted(first_bad.items()):
         call = f"generate_orders_horton_order({L}, '{ty}', {dim})"
         ob = "orders_cartesian_spec(dim=1)" if (ty, dim) == ("cartesian", 1) else f"orders_{ty.replace('-', '_')}_spec"
-        ctx.fail(ob, call, obs if isinstance(obs, str) else str(obs),
+        emit(ob, call, obs if isinstance(obs, str) else str(obs),
                  f"{call} " + (f"raises {obs}" if isinstance(obs, str) else f"returns {obs}") + f"; documented order list is {exp}",
                  {"reproduce": f"from grid.utils import generate_orders_horton_order as g; g({L}, '{ty}', {dim})", "expected": exp})
     if variant == "today" and ("cartesian", 1) not in first_bad:
-        ctx.fail("orders_cartesian_1d_refuted", "dim1-variant", None,
+        emit("orders_cartesian_1d_refuted", "dim1-variant", None,
                  "the 1-D generator was classified as not conforming but no failing order <= %d was found" % LMAX_ORD, found_input=False)
-    for i in ctx.coq_bool_cases("C14_orders", ZHDR, cases):
+    for i in coq_bad("C14_orders", ZHDR, cases):
         ty, dim, L, r = meta[i]
         if (ty, dim) in first_bad:
             continue  # a concrete failing input of the property has been reported for this generator
@@ -543,17 +609,18 @@ def run(ctx: Ctx):
     def report(ob, key, observed, text, replay=None, found_input=True):
         nrep[ob] = nrep.get(ob, 0) + 1
         if nrep[ob] <= MAXREP:
-            ctx.fail(ob, key, observed, text, replay, found_input)
+            emit(ob, key, observed, text, replay, found_input)
         else:
             ctx.count(f"failing inputs not listed:{ob}")
 
     # ---------------------------------------------------------------- helper: property check of one moments call
-    def check_property(ty, dim, L, pts, w, cs, f, res, exact, tag):
-        """Compare the implementation's result with direct quadrature over the documented rows. Returns True if ok."""
-        key = f"moments:{ty}:dim={dim}:L={L}:{tag}"
+    def check_property(ty, dim, L, pts, w, cs, f, res, exact, tag, fkind="float64", layout="plain"):
+        """Compare the implementation's result with the float64 direct quadrature of the given values over the documented
+        rows (f: the float64 value of every element of the function-value array). Returns True if ok."""
+        key = f"moments:{ty}:dim={dim}:L={L}:{tag}:{fkind}:{layout}"
         rp = {"type": ty, "orders": L, "points": [list(map(float, p)) for p in pts], "weights": list(map(float, w)),
-              "centers": [list(map(float, c)) for c in cs], "func_vals": list(map(float, f)),
-              "reproduce": "Grid(np.array(points), np.array(weights)).moments(orders, np.array(centers), np.array(func_vals), type, return_orders=True)"}
+              "centers": [list(map(float, c)) for c in cs], "func_vals": list(map(float, f)), "func_vals_dtype": fkind, "layout": layout,
+              "reproduce": "Grid(np.array(points), np.array(weights)).moments(orders, np.array(centers), np.array(func_vals, dtype=func_vals_dtype), type, return_orders=True)"}
         if is_crash(res):
             if ty == "cartesian" and dim == 1 and ("cartesian", 1) in first_bad:
                 ctx.count("moments:1d-skipped(generator finding)")
@@ -596,9 +663,11 @@ def run(ctx: Ctx):
         ncs = 1 + (k % 4)
         pts = [[rng.randint(-3, 3) for _ in range(dim)] for _ in range(npt)]
         w = [rng.choice([-3, -2, -1, 2, 3, 4, 5]) for _ in range(npt)]
-        f = [rng.choice([-4, -3, -2, -1, 1, 2, 3, 4, 5]) for _ in range(npt)]
+        fkind, layout = FKINDS[k % 5], LAYOUTS[(k // 5) % 3]
+        fa, f = draw_f(rng, npt, fkind, "int")
+        f = [int(x) for x in f]
         cs = [[rng.choice([-2, -1, 1, 2]) if j == 0 or rng.random() < 0.8 else 0 for j in range(dim)] for _ in range(ncs)]
-        res = impl_moments(pts, w, L, cs, f, "cartesian")
+        res = impl_moments(pts, w, L, cs, fa, "cartesian", layout)
         if is_crash(res):
             e = "None"
         else:
@@ -611,7 +680,8 @@ def run(ctx: Ctx):
         meta.append((dim, L, pts, w, cs, f, res))
         ctx.case(("cart", dim, L, npt, ncs, k))
         ctx.count(f"cartesian:{dim}D:centres={ncs}")
-        check_property("cartesian", dim, L, pts, w, cs, f, res, True, f"int#{k}")
+        ctx.count(f"func_vals:{fkind}:{layout}")
+        meta[-1] = meta[-1] + (check_property("cartesian", dim, L, pts, w, cs, f, res, True, f"int#{k}", fkind, layout),)
     # argument validation and edge cases (the model is faithful there too)
     p3 = [[1, 2, 0], [2, -1, 1]]
     edge = [("cartesian", 3, 1, p3, [2, 3], [[0, 1]], [1, 3]),            # centre of wrong dimension
@@ -629,18 +699,54 @@ def run(ctx: Ctx):
             m, o = res
             e = f"Some ({coq_zrows([[int(x) for x in row] for row in m])}, {coq_arr(o)})"
         cases.append(f'zmom_eqb (zmom {dim}%nat {z(L)} "{ty}"%string {coq_zrows(pts)} {coq_zlist(w)} {coq_zrows(cs)} {coq_zlist(f)}) ({e})')
-        meta.append((dim, L, pts, w, cs, f, res))
+        meta.append((dim, L, pts, w, cs, f, res, True))
         ctx.case(("edge", ty, dim, L))
-    nfail0 = len(ctx.failures)
-    for i in ctx.coq_bool_cases("C14_cart", ZHDR, cases):
-        dim, L, pts, w, cs, f, res = meta[i]
+    for i in coq_bad("C14_cart", ZHDR, cases):
+        dim, L, pts, w, cs, f, res, ok = meta[i]
         # the property check above already searched this very input; if it passed there, the model is at fault
-        if len(ctx.failures) == nfail0 or i >= ncart:
+        if ok:
             report("corr_moments_cartesian", f"moments-model:#{i}:dim={dim}:L={L}", None if is_crash(res) else "values",
                      f"model and implementation disagree on integer grid case #{i} (dim {dim}, order {L})",
                      {"points": pts, "weights": w, "centers": cs, "func_vals": f, "orders": L}, found_input=False)
     ctx.sample({"cartesian_case": {"dim": meta[5][0], "L": meta[5][1], "points": meta[5][2], "weights": meta[5][3], "centers": meta[5][4],
                                    "func_vals": meta[5][5], "impl": None if is_crash(meta[5][6]) else meta[5][6][0].tolist()}})
+
+    # ---------------------------------------------------------------- 2b. Cartesian moments on non-integer dyadic grids with
+    #      function values of every dtype: exact (bigQ model, zero tolerance; exact-rational direct quadrature).  The expected
+    #      value is the float64 quadrature of the given values, whatever the dtype of the array they come in.
+    cases, meta = [], []
+    ncq = 120 if quick else 2400
+    for k in range(ncq):
+        dim = [1, 2, 3][k % 3]
+        L = rng.randint(0, 6) if k >= 21 else k // 3
+        npt = rng.randint(1, 6)
+        ncs = 1 + (k % 4)
+        fkind, layout = FKINDS[k % 5], LAYOUTS[(k // 5) % 3]
+        pts = [[rng.randint(-8, 8) / 4.0 for _ in range(dim)] for _ in range(npt)]
+        w = [rng.choice([-0.75, -0.25, 0.25, 0.5, 0.75, 1.25, 1.5]) for _ in range(npt)]
+        fa, f = draw_f(rng, npt, fkind, "dyadic")
+        cs = [[(2 * rng.randint(-3, 2) + 1) / 4.0 if j == 0 or rng.random() < 0.8 else 0.5 for j in range(dim)] for _ in range(ncs)]
+        res = impl_moments(pts, w, L, cs, fa, "cartesian", layout)
+        ok = check_property("cartesian", dim, L, pts, w, cs, f, res, True, f"dyadic#{k}", fkind, layout)
+        if is_crash(res):
+            e = "None"
+        else:
+            m, o = res
+            e = f"Some ({coq_qrows(np.asarray(m, dtype=float).tolist())}, {coq_arr(o)})"
+        nrows = len(spec_rows("cartesian", dim, L))
+        tols = "[" + "; ".join(["0%bigQ"] * nrows) + "]"
+        cases.append(f'qmom_close {tols} (moments QOps (fun _ => 0%bigQ) (fun _ _ => []) {dim}%nat {L} "cartesian"%string '
+                     f'{coq_qrows(pts)} {coq_qlist(w)} {coq_qrows(cs)} {coq_qlist(f)}) ({e})')
+        meta.append((dim, L, pts, w, cs, f, fkind, ok))
+        ctx.case(("cartq", dim, L, npt, ncs, fkind, layout, k))
+        ctx.count(f"cartesian:{dim}D:centres={ncs}")
+        ctx.count(f"func_vals:{fkind}:{layout}")
+    for i in coq_bad("C14_cartq", QHDR, cases, shard=60):
+        dim, L, pts, w, cs, f, fkind, ok = meta[i]
+        if ok and not (dim == 1 and ("cartesian", 1) in first_bad):
+            report("corr_moments_cartesian", f"moments-model-q:#{i}:dim={dim}:L={L}", None,
+                   f"bigQ model and implementation disagree on dyadic Cartesian case #{i} (dim {dim}, order {L}, {fkind}) although the implementation matches direct quadrature",
+                   {"points": pts, "weights": w, "centers": cs, "func_vals": f, "orders": L}, found_input=False)
 
     # ---------------------------------------------------------------- 3. oracle hypotheses validated against the library
     lmax_h = 8 if quick else 12
@@ -687,12 +793,14 @@ def run(ctx: Ctx):
         if k % 5 == 0:
             pts[0] = [0.0] * (dim - 1) + [1.25]  # on the z axis
         w = [rng.choice([-1.5, 0.25, 0.5, 0.75, 1.25, 2.0]) for _ in range(npt)]
-        f = [rng.randint(-12, 12) / 8.0 or 0.625 for _ in range(npt)]
+        fkind, layout = FKINDS[(k // 3) % 5], LAYOUTS[(k // 15) % 3]
+        fa, f = draw_f(rng, npt, fkind, "dyadic")
         cs = [[rng.randint(-6, 6) / 4.0 for _ in range(dim)] for _ in range(ncs)]
         if k % 7 == 0:
             cs[0] = list(pts[-1])  # a centre on a grid point: r = 0
-        res = impl_moments(pts, w, L, cs, f, ty)
-        ok = check_property(ty, dim, L, pts, w, cs, f, res, False, f"dyadic#{k}")
+        res = impl_moments(pts, w, L, cs, fa, ty, layout)
+        ok = check_property(ty, dim, L, pts, w, cs, f, res, False, f"dyadic#{k}", fkind, layout)
+        ctx.count(f"func_vals:{fkind}:{layout}")
         ctx.case(("sph", ty, dim, L, npt, ncs, k))
         ctx.count(f"{ty}:{dim}D:centres={ncs}")
         # Coq model with oracle tables
@@ -717,7 +825,7 @@ def run(ctx: Ctx):
         cases.append(f'let t : otab := {tabs} in qmom_close {tols} (moments QOps (tnorm t) (tsolid t) {dim}%nat {L} "{ty}"%string '
                      f'{coq_qrows(pts)} {coq_qlist(w)} {coq_qrows(cs)} {coq_qlist(f)}) ({e})')
         meta.append((ty, dim, L, pts, w, cs, f, ok))
-    for i in ctx.coq_bool_cases("C14_sph", QHDR, cases, shard=12):
+    for i in coq_bad("C14_sph", QHDR, cases, shard=12):
         ty, dim, L, pts, w, cs, f, ok = meta[i]
         if ok:  # the implementation satisfies the property on this input but the model does not reproduce it
             report("corr_moments_" + ty.replace("-", "_"), f"moments-model:{ty}:#{i}:L={L}", None,
@@ -735,10 +843,12 @@ def run(ctx: Ctx):
         ncs = 1 + (k % 4)
         pts = [[rng.uniform(-2, 2) for _ in range(dim)] for _ in range(npt)]
         w = [rng.uniform(-0.5, 2.0) for _ in range(npt)]
-        f = [rng.uniform(-2, 2) for _ in range(npt)]
+        fkind, layout = FKINDS[(k // 3) % 5], LAYOUTS[(k // 15) % 3]
+        fa, f = draw_f(rng, npt, fkind, "float")
         cs = [[rng.uniform(-1.5, 1.5) for _ in range(dim)] for _ in range(ncs)]
-        res = impl_moments(pts, w, np.int64(L) if k % 4 == 0 else L, cs, f, ty)  # NumPy integer orders are accepted too
-        check_property(ty, dim, L, pts, w, cs, f, res, False, f"float#{k}")
+        res = impl_moments(pts, w, np.int64(L) if k % 4 == 0 else L, cs, fa, ty, layout)  # NumPy integer orders are accepted too
+        check_property(ty, dim, L, pts, w, cs, f, res, False, f"float#{k}", fkind, layout)
+        ctx.count(f"func_vals:{fkind}:{layout}")
         ctx.case(("flt", ty, dim, L, npt, ncs, k))
         ctx.count(f"{ty}:{dim}D:centres={ncs}")
 
@@ -754,10 +864,18 @@ def run(ctx: Ctx):
         npt = rng.randint(1, 8)
         pts = [[rng.randint(-16, 16) / 8.0 for _ in range(3)] for _ in range(npt)]
         w = [rng.choice([0.25, 0.5, 0.75, 1.25, 2.0]) for _ in range(npt)]
-        rho = [rng.randint(1, 24) / 8.0 for _ in range(npt)]
+        fkind, layout = FKINDS[k % 5], LAYOUTS[(k // 5) % 3]
+        if fkind in ("int64", "int32"):
+            rho_a = np.array([rng.randint(1, 6) for _ in range(npt)], dtype=fkind)      # electron counts per cell
+        elif fkind == "bool":
+            rho_a = np.array([True] + [rng.random() < 0.5 for _ in range(npt - 1)])     # occupancy mask
+        else:
+            rho_a = np.array([rng.randint(1, 24) / 8.0 for _ in range(npt)], dtype=fkind)
+        rho = [float(x) for x in rho_a]
         masses = [float(gu.isotopic_masses[q]) for q in charges]
         try:
-            d = gu.dipole_moment_of_molecule(Grid(np.array(pts), np.array(w)), np.array(rho), np.array(coords), np.array(charges))
+            d = gu.dipole_moment_of_molecule(Grid(lay(np.array(pts), layout), lay(np.array(w), layout)), lay(rho_a, layout),
+                                             lay(np.array(coords), layout), np.array(charges))
             d = [float(x) for x in np.asarray(d).ravel()]
         except Exception as e:  # noqa: BLE001
             d = ("crash", type(e).__name__)
@@ -768,25 +886,30 @@ def run(ctx: Ctx):
         exp = [sum(F(q) * (F(R[j]) - C[j]) for R, q in zip(coords, charges))
                - sum((F(p[j]) - C[j]) * F(r) * F(ww) for p, r, ww in zip(pts, rho, w)) for j in range(3)]
         scale = max(1.0, sum(abs(q) * 4 for q in charges) + sum(abs(r * ww) * 4 for r, ww in zip(rho, w)))
-        key = f"dipole:#{k}:atoms={charges}"
-        rp = {"points": pts, "weights": w, "density": rho, "coords": coords, "charges": charges,
+        key = f"dipole:#{k}:atoms={charges}:{fkind}:{layout}"
+        rp = {"points": pts, "weights": w, "density": rho, "density_dtype": fkind, "layout": layout, "coords": coords, "charges": charges,
               "reproduce": "dipole_moment_of_molecule(Grid(np.array(points), np.array(weights)), np.array(density), np.array(coords), np.array(charges))"}
         ctx.case(("dipole", nat, npt, k))
         ctx.count(f"dipole:atoms={nat}")
+        ctx.count(f"density:{fkind}:{layout}")
+        dok = True
         if is_crash(d):
             report("dipole_spec", key, d[1], f"dipole_moment_of_molecule raises {d[1]}", rp)
-            e = "None"
+            e, dok = "None", False
         else:
             if len(d) != 3 or any(abs(a - float(b)) > TOL * scale for a, b in zip(d, exp)):
+                dok = False
                 report("dipole_spec", key, d, f"dipole_moment_of_molecule = {d}, nuclear minus electronic first moments about the centre of mass = {[float(x) for x in exp]}", rp)
             e = "Some " + coq_qlist(d)
         cases.append(f"qopt_close {q_bigq(Fraction(TOL * scale))} (qdip {coq_qrows(pts)} {coq_qlist(w)} {coq_qlist(rho)} {coq_qrows(coords)} "
                      f"{coq_qlist(charges)} {coq_qlist(masses)}) ({e})")
-        meta.append((k, charges))
-    nf = len(ctx.failures)
-    for i in ctx.coq_bool_cases("C14_dip", QHDR, cases, shard=20):
-        if len(ctx.failures) == nf:
+        meta.append((k, charges, dok))
+    for i in coq_bad("C14_dip", QHDR, cases, shard=20):
+        if meta[i][2]:
             report("corr_dipole", f"dipole-model:#{meta[i][0]}", None, f"Coq model of the dipole helper and the implementation disagree on case #{meta[i][0]}", found_input=False)
+
+    if gen_err is not None:
+        ctx.broken_tie("translator(generate_orders_horton_order)", gen_err, cands)
 
     ctx.cov["rule"] = ("order lists: every (type, dim 1..3, order 0..%d) compared exactly with the translated generator (vm_compute) and with an "
                        "independent enumeration; Cartesian moments: random integer grids (1-3 D, orders 0-6, 1-4 non-zero centres, non-unit "
@@ -794,7 +917,10 @@ def run(ctx: Ctx):
                        "pure-radial: dyadic grids (incl. points on the z axis and a centre on a grid point) compared, implementation and bigQ "
                        "model with oracle tables alike, with direct quadrature using closed-form solid harmonics (1e-10), plus float grids up to "
                        "order %d; dipole: random molecules against the exact-rational documented formula and the bigQ model; a case is distinct "
-                       "by (type, dim, order, #points, #centres, draw)" % (LMAX_ORD, 6 if quick else 9))
+                       "by (type, dim, order, #points, #centres, draw); function values / densities are passed as float64, int64, int32, bool and "
+                       "float32 arrays, contiguous, as non-contiguous views and write-protected (all arrays), with non-integer points and "
+                       "centres; the expected value is always the float64 quadrature of the given values; Python lists are rejected by the "
+                       "API (AttributeError on .ndim) and are not part of the domain" % (LMAX_ORD, 6 if quick else 9))
     ctx.trusted += [
         "py2coq/int translator OrdersTranslator (tools/props/c14.py) for generate_orders_horton_order; validated by exact correspondence on all orders 0..%d" % LMAX_ORD,
         "NumPy semantics assumed by the model vocabulary: np.array of int rows (ragged -> error, [] -> shape (0,)), np.vstack row stacking with equal widths, np.arange, np.ravel; a dtype attribute missing from the installed NumPy raises",
